@@ -223,7 +223,21 @@ def _one_history(rng, res, DrawSet):
             if op == "add":
                 if x in M:
                     res.count("add_present")
-                    if sparse and rng.random() < 0.85:
+                    if rng.random() < 0.25:
+                        # a present element is inserted while an iteration over the set is under way (`for e in s: s.add(e)`): nothing
+                        # changes, so the iteration goes on and still delivers each member once - as it does for a builtin set
+                        it = sut("iter", iter, D)
+                        seen = []
+                        try:
+                            seen.append(next(it))
+                        except StopIteration:
+                            pass
+                        sut("add", D.add, x)
+                        seen.extend(sut("iter (continued after inserting a present element)", list, it))
+                        res.count("add_present_during_a_live_iteration")
+                        if not _eq_multiset(seen, M):
+                            res.violate("iteration-differs", after=k, note="a present element was inserted while the iteration was under way", got=seen, model=list(M), ops=ops); return
+                    elif sparse and rng.random() < 0.85:
                         sut("add", D.add, x)
                     else:
                         before = sut("iter", list, D)
